@@ -241,14 +241,14 @@ def r3(ctx: Context) -> None:
         txt_b = " ".join(ast.unparse(n.ast) for n in only_b)
         ok = "ConcurrentInvocation(" in txt_a and "route_call" not in txt_a and "route_call" in txt_b and "ConcurrentInvocation(" not in txt_b
     ctx.add("R3", "Task._call::mode-switch", ok, f.loc(), "" if ok else "Task._call does not select ConcurrentInvocation under dev_mode_force_sync_tasks and the orchestrator otherwise")
-    both_same_call = "Call(self, arguments)" in ast.unparse(f.node)
+    both_same_call = f"Call(self, {f.params[1]})" in ast.unparse(f.node)
     ctx.add("R3", "Task._call::same-call-both-modes", both_same_call, f.loc(), "")
     m = repo.modules.get("pynenc.task")
     dc = m.functions.get("distribute_calls") if m else None
     cb = m.functions.get("can_batch_process") if m else None
     ok = dc is not None and any(isinstance(n, ast.If) and "dev_mode_force_sync_tasks" in ast.unparse(n.test) and "ConcurrentInvocationGroup" in ast.unparse(n) for n in walk_no_nested(dc.node)) and "DistributedInvocationGroup" in ast.unparse(dc.node)
     ctx.add("R3", "distribute_calls::mode-switch", bool(ok), dc.loc() if dc else "", "" if ok else "")
-    ok = cb is not None and "not task.app.conf.dev_mode_force_sync_tasks" in ast.unparse(cb.node)
+    ok = cb is not None and f"not {cb.params[0]}.app.conf.dev_mode_force_sync_tasks" in ast.unparse(cb.node)
     ctx.add("R3", "can_batch_process::never-batches-in-sync-mode", bool(ok), cb.loc() if cb else "", "" if ok else "batch routing (always distributed) can be chosen in development sync mode")
     # direct_task wrappers
     wrappers = [x for x in repo.all_functions() if x.name in ("sync_wrapper", "async_wrapper") and x.parent_func is not None]
